@@ -422,6 +422,32 @@ func c07R3(c *Ctx, rule string) {
 						exact = true
 					}
 				}
+				// the same equation on the two lengths: len(sessionId) + len(keyShare) == 64
+				if a.Kind == "cmp" && a.Op == token.EQL {
+					d := symAff(a.X, 0).add(symAff(a.Y, 0), -1)
+					if (d.C == 64 || d.C == -64) && len(d.Terms) == 2 {
+						sign := int64(-1)
+						if d.C == -64 {
+							sign = 1
+						}
+						sidT, ksT := false, false
+						for s, k := range d.Terms {
+							lc, isL := s.(*ssa.Call)
+							if !isL || calleeName(&lc.Call) != "builtin.len" || k != sign {
+								continue
+							}
+							arg := p.canonIn(f, lc.Call.Args[0])
+							if mentionsField(arg, p.Field("internal/server", "ClientHello", "sessionId")) {
+								sidT = true
+							} else if mentionsCallTo(arg, "parseKeyShare") {
+								ksT = true
+							}
+						}
+						if sidT && ksT {
+							exact = true
+						}
+					}
+				}
 				if v, ok := lenEq(a, 32); ok {
 					e := Expr(v)
 					if strings.Contains(e, "sessionId") {
